@@ -17,17 +17,19 @@ SPEC = {
         "partition": (None, "pf_partition"),
         "query": ("mism_query", "pf_query"),
         "qorder": (None, "pf_qorder"),
+        "apipage": ("mism_apipage", "pf_apipage"),
     },
     "trusted_base": [
         "translator /verif/translator (Go->Gallina for visor.NewPageIndex, PageIndex.Cal), validated on this run against the implementation on the generated requests (also with sizes outside 1..100 through the verif export VerifPageIndex)",
         "Model/Paging.v `page`: Pagination = items[start:end] of Cal's result (hand-written, 6 lines), compared on this run with the real txnHashesContainer.Pagination through src/visor/verif_c29.go",
         "Visor.GetTransactions (transactionModel and its confirmed / unconfirmed / full getters) is driven on a real node built by harness/nodekit (publisher visor on a bolt file, blocks made through the C05 hook VerifCreateBlock, unconfirmed pool filled by InjectForeignTransaction); each paged answer is compared with the unpaged answer of the same query",
+        "GET /api/v2/transactions is driven through the real handler behind api.newServerMux (C27 verif export) with a gateway stub that records the PageIndex it is handed: page / limit texts (64-bit boundaries, 2^32 neighbourhood, signs, junk) must give 200 with exactly (limit, page) passed on iff page >= 1 fits uint64 and 1 <= limit <= 100, else 400",
         "a Go slice has fewer than 2^63 elements (len is an int)",
         "harness printer of inputs/outputs as Coq terms; error identity = sentinel variable",
     ],
     "assumptions": [
         "list length < 2^63 (Go int); page size and page number are uint64",
-        "which transactions a query selects is the subject of C07; here the unpaged answer of the query is the reference list (checked ordered by block seq / hash), and the HTTP handler is not driven",
+        "which transactions a query selects is the subject of C07; here the unpaged answer of the query is the reference list (checked ordered by block seq / hash), the HTTP handler's parameter decoding is driven with a stub gateway, not end to end with a node",
     ],
 }
 
